@@ -109,8 +109,12 @@ class DirHandler(BaseHandler):
             return False
 
         if time.time() - statval[stat.ST_MTIME] < self.cachetime:
-            with self.vfs.open(self.cachename, "rb") as fp:
-                self.fileentries = pickle.load(fp)
+            try:
+                with self.vfs.open(self.cachename, "rb") as fp:
+                    self.fileentries = pickle.load(fp)
+            except Exception:
+                # Truncated or corrupt cache file: regenerate the listing.
+                return False
             self.fromcache = True
             return True
         return False
